@@ -346,13 +346,6 @@ theorem witness_rpc_output :
       ⟨[Witness.body], [], ws!"l"⟩).toOption.map (fun r => bodyEntryNames r.2) = some [ws!"getAOut"] := by
   decide +kernel
 
-/-- the model evaluated on the witness: `Header` and `Body` of the output envelope are both required -/
-theorem witness_output_with_header :
-    (outputOf Witness.defs (Witness.bo [Witness.header, Witness.body]) Witness.po ws!"Pt_getA" ws!"document"
-      Witness.envNs ⟨[Witness.header, Witness.body], [], ws!"l"⟩).toOption.map
-      (fun r => r.2.attrs.map (fun a => (a.name, a.min))) = some [(ws!"Header", none), (ws!"Body", none)] := by
-  decide +kernel
-
 /-- **finding C17-rpc-output-wrapper-name**: operation `getA` with output message
 `getAOut` gets the response wrapper `getAOut`. -/
 theorem rpc_output_wrapper_not_operation : ¬ RpcOutputWrapperNamedAfterOperation := by
@@ -409,13 +402,14 @@ example : (splitColon ws!"tns:getHelloAsStringResponse").2 = ws!"getHelloAsStrin
 
 /-! ## Faults -/
 
-/-- **fault_shape**: after `build_envelope_fault` the envelope's own attrs are
-unchanged; every entry of `Body` is optional; the last entry is `Fault` in the
+/-- **fault_shape**: after `build_envelope_fault` the envelope's own attrs keep their
+order and names, `Body` stays as it was and every other one (`Header`) is optional;
+every entry of `Body` is optional; the last entry is `Fault` in the
 envelope namespace; its class has the four SOAP 1.1 fault children, unqualified,
 `faultcode` and `faultstring` required, `faultactor` and `detail` optional. -/
 theorem fault_shape (d : Definitions) (po : PtOperation) (env env' : Cls)
     (h : buildEnvelopeFault d po env = .ok env') :
-    env'.attrs = env.attrs ∧
+    env'.attrs = env.attrs.map optionalUnlessBody ∧
     (∀ a ∈ innerAttrs env' ws!"Body", a.min = some 0) ∧
     (∃ fa, (innerAttrs env' ws!"Body").getLast? = some fa ∧ fa.name = ws!"Fault" ∧ fa.ns = env.ns ∧ fa.forward = true) ∧
     bodyEntryNames env' = bodyEntryNames env ∧
@@ -433,37 +427,19 @@ theorem fault_shape (d : Definitions) (po : PtOperation) (env env' : Cls)
     rw [innerAttrs_of_find _ _ _ h2, h3]
     simp
 
-/-- full-strength statement: a response that carries only a SOAP fault (no
-`soap:Header`) fits the output envelope class — every envelope attr other than
-`Body` is optional -/
-def FaultOnlyResponseFits : Prop :=
-  ∀ (d : Definitions) (bo : BOperation) (po : PtOperation) (name style : Str) (ns : Option Str) (bm : BMessage)
-    (r : Option Cls × Cls), outputOf d bo po name style ns bm = .ok r →
-    ∀ a ∈ r.2.attrs, a.name ≠ ws!"Body" → a.min = some 0
+/-- the model evaluated on the witness of the former finding C17-fault-needs-output-header
+(an output with a `soap:header`): `Header` of the output envelope is optional, `Body` required -/
+theorem witness_output_with_header :
+    (outputOf Witness.defs (Witness.bo [Witness.header, Witness.body]) Witness.po ws!"Pt_getA" ws!"document"
+      Witness.envNs ⟨[Witness.header, Witness.body], [], ws!"l"⟩).toOption.map
+      (fun r => r.2.attrs.map (fun a => (a.name, a.min))) = some [(ws!"Header", some 0), (ws!"Body", none)] := by
+  decide +kernel
 
-/-- **finding C17-fault-needs-output-header**: an output with a `soap:header` keeps a
-required `Header`. -/
-theorem fault_only_response_does_not_fit : ¬ FaultOnlyResponseFits := by
-  intro h
-  have hw := witness_output_with_header
-  cases hr : outputOf Witness.defs (Witness.bo [Witness.header, Witness.body]) Witness.po ws!"Pt_getA" ws!"document"
-      Witness.envNs ⟨[Witness.header, Witness.body], [], ws!"l"⟩ with
-  | error e => rw [hr] at hw; simp [Except.toOption] at hw
-  | ok r =>
-    rw [hr] at hw
-    simp only [Except.toOption, Option.map_some, Option.some.injEq] at hw
-    have hmem : (ws!"Header", (none : Option Nat)) ∈ r.2.attrs.map (fun a => (a.name, a.min)) := by
-      rw [hw]; simp
-    obtain ⟨a, ha, hpa⟩ := List.mem_map.1 hmem
-    simp only [Prod.mk.injEq] at hpa
-    have := h _ _ _ _ _ _ _ r hr a ha (by rw [hpa.1]; decide)
-    rw [hpa.2] at this
-    cases this
-
-/-- the provable part: outputs whose binding declares nothing but `soap:body` -/
-theorem fault_only_response_fits_partial (d : Definitions) (bo : BOperation) (po : PtOperation)
+/-- **fault_only_response_fits** (full strength, after repair PENDING-c17c-02): a response
+that carries only a SOAP fault (no `soap:Header`) fits the output envelope class — every
+envelope attr other than `Body` is optional, whatever the binding output declares. -/
+theorem fault_only_response_fits (d : Definitions) (bo : BOperation) (po : PtOperation)
     (name style : Str) (ns : Option Str) (bm : BMessage) (r : Option Cls × Cls)
-    (hb : ∀ e ∈ bm.ext, titleA (localName e.qname) = ws!"Body")
     (h : outputOf d bo po name style ns bm = .ok r) :
     ∀ a ∈ r.2.attrs, a.name ≠ ws!"Body" → a.min = some 0 := by
   unfold outputOf mapMessage at h
@@ -487,11 +463,19 @@ theorem fault_only_response_fits_partial (d : Definitions) (bo : BOperation) (po
           intro a ha hne
           simp only at ha
           rw [(withFault_head _ _ _ _ _ hf).2] at ha
-          obtain ⟨hmem, _⟩ := buildEnvelopeClass_attrs _ _ _ _ _ _ _ _ he a ha
-          obtain ⟨e, hee, hn⟩ := List.mem_map.1 hmem
-          exact absurd (hn ▸ hb e hee) hne
+          simp only [↓reduceIte] at ha
+          obtain ⟨b, _, rfl⟩ := List.mem_map.1 ha
+          unfold optionalUnlessBody at hne ⊢
+          by_cases hb : (b.name == ws!"Body") = true
+          · simp only [hb, ↓reduceIte] at hne
+            exact absurd (by simpa using hb) hne
+          · have hb' : (b.name == ws!"Body") = false := by simpa using hb
+            simp [hb', setMin0]
 
-example : ∀ e ∈ [Witness.body], titleA (localName e.qname) = ws!"Body" := by decide
+/-- requests are untouched: the `Header` of an input envelope stays required -/
+theorem request_header_required (d : Definitions) (po : PtOperation) (env env' : Cls)
+    (h : withFault d po false env = .ok env') : env'.attrs = env.attrs := by
+  simpa using (withFault_head _ _ _ _ _ h).2
 
 /-! ## Generation succeeds -/
 
@@ -676,34 +660,58 @@ theorem lazy_decision (sourceNs targetNs : Option Str) :
       | some t => cases t <;> simp [detectLazyNamespace.truthyNs]
     | cons c s => simp [detectLazyNamespace.truthyNs]
 
-/-- full-strength statement: no field keeps the internal marker as its XML namespace -/
-def LazyAlwaysResolved : Prop :=
-  ∀ (k : SourceKind) (sourceNs targetNs : Option Str),
-    sourceNs ≠ some Tables.c17LazyMarker →
-    resolveNamespace k (some Tables.c17LazyMarker) sourceNs targetNs ≠ some (some Tables.c17LazyMarker)
+/-- **lazy_decision_simple**: a simple type, an enumeration or a missing type never
+has a namespace of its own: the marker becomes "unqualified" when the class that holds
+the field has a namespace (rpc message classes), else it is left to inheritance. -/
+theorem lazy_decision_simple (k : SourceKind) (hk : k = .simple ∨ k = .enumeration ∨ k = .absent)
+    (sourceNs targetNs : Option Str) :
+    resolveNamespace k (some ws!"##lazy") sourceNs targetNs
+      = some (match targetNs with
+          | some (_ :: _) => some []
+          | _ => none) := by
+  obtain ⟨_, _, _, _, _, _, h7, _⟩ := protocol_constants
+  rcases hk with rfl | rfl | rfl <;>
+    simp only [resolveNamespace, detectLazyNamespace, h7, beq_self_eq_true, ↓reduceIte] <;>
+    (cases targetNs with
+     | none => simp [detectLazyNamespace.truthyNs]
+     | some t => cases t <;> simp [detectLazyNamespace.truthyNs])
 
-/-- **finding C17-lazy-namespace-simple-type**: a part whose type is a user-defined
-simple type (or an enumeration, or is absent) keeps `##lazy`. -/
-theorem lazy_not_always_resolved : ¬ LazyAlwaysResolved := by
-  intro h
-  exact h .simple none none (by decide) rfl
-
-/-- the provable part: complex types (the only case the handler treats) -/
-theorem lazy_resolved_partial (sourceNs targetNs : Option Str)
+/-- **lazy_always_resolved** (full strength, after repair PENDING-c17c-01): whatever the
+part's type turns out to be, a field that is kept never has the internal marker as
+its XML namespace (a type can not live in the namespace `##lazy` itself). -/
+theorem lazy_always_resolved (k : SourceKind) (sourceNs targetNs : Option Str)
     (hs : sourceNs ≠ some Tables.c17LazyMarker) :
-    resolveNamespace .complex (some Tables.c17LazyMarker) sourceNs targetNs ≠ some (some Tables.c17LazyMarker) := by
+    resolveNamespace k (some Tables.c17LazyMarker) sourceNs targetNs ≠ some (some Tables.c17LazyMarker) := by
   obtain ⟨_, _, _, _, _, _, h7, _⟩ := protocol_constants
   rw [h7] at hs ⊢
-  rw [lazy_decision]
-  cases sourceNs with
-  | none => cases targetNs with
-    | none => simp
-    | some t => cases t <;> simp
-  | some s => cases s with
-    | nil => cases targetNs with
+  cases k with
+  | abstractElement => simp [resolveNamespace]
+  | complex =>
+    rw [lazy_decision]
+    cases sourceNs with
+    | none => cases targetNs with
       | none => simp
       | some t => cases t <;> simp
-    | cons c s => simpa using hs
+    | some s => cases s with
+      | nil => cases targetNs with
+        | none => simp
+        | some t => cases t <;> simp
+      | cons c s => simpa using hs
+  | absent =>
+    rw [lazy_decision_simple _ (Or.inr (Or.inr rfl))]
+    cases targetNs with
+    | none => simp
+    | some t => cases t <;> simp
+  | enumeration =>
+    rw [lazy_decision_simple _ (Or.inr (Or.inl rfl))]
+    cases targetNs with
+    | none => simp
+    | some t => cases t <;> simp
+  | simple =>
+    rw [lazy_decision_simple _ (Or.inl rfl)]
+    cases targetNs with
+    | none => simp
+    | some t => cases t <;> simp
 
 example : (some ws!"urn:types" : Option Str) ≠ some Tables.c17LazyMarker := by decide
 
